@@ -105,7 +105,7 @@ CHECKS = {
     },
     "C20": {
         "level": "exploration",
-        "technique": "stress fuzzing with real threads: generated solver histories run concurrently by 2-16 threads over shared hash-consed expressions, varied switch intervals, every answer checked against a brute-force model set and against solo runs; crashes of the interpreter caught by running cases in child processes",
+        "technique": "stress fuzzing with real threads: generated solver histories run concurrently by 2-16 threads over shared hash-consed expressions, varied switch intervals, every answer checked against a brute-force model set and against solo runs, plus directed threaded histories (wide cached-model evaluations, same-named annotated variables through backends.z3.simplify, switch interval 1e-6) compared answer by answer with the same history run alone; crashes of the interpreter caught by running cases in child processes",
         "text": "Deliberately weak: the harness does not control the interleaving. 2-16 real threads start behind a barrier and run generated histories on their own solver objects (Solver, SolverCacheless, SolverComposite, SolverHybrid) over shared variable names, so hash-consed ASTs, their error sets and the simplification cache are shared while Z3 contexts and conversion caches are thread-local; one thread keeps calling backends.z3.downsize(). Every answer is checked against the thread's brute-force model set (which pins the deterministic answers to the solo-run values); a history failing alone is attributed to C11-C13; a failure must reproduce in 1 of 3 immediate repeats; interpreter crashes are pinned to the running case through a per-case log written by a child process and confirmed by re-runs.",
         "note": "Can only show presence of races: a narrow window may never fire under the GIL. Evidence reports the number of (threads x histories x switch-interval) runs.",
     },
@@ -154,7 +154,7 @@ CHECKS = {
     "C19": {
         "level": "exploration",
         "technique": "controlled-schedule exploration: harness-owned line-level scheduler, complete state-space DFS for 1-2 threads, preemption-bounded DFS and generated schedules for 3 threads, invariant after every step",
-        "text": "The harness owns the scheduler (trace function yields before every line of _enter_z3/_exit_z3/z3_condom and the wrapped bodies) and substitutes the module's gc and lock with a model flag and a scheduler-aware lock. For every 1- and 2-thread configuration of nested call programs (incl. bodies raising Z3Exception) and both initial GC states, every scheduling choice in every reachable state is explored; 3-thread configurations up to a preemption bound plus generated schedules. After every step: flag disabled while any call is in progress, count >= 0, no deadlock; at the end flag restored, count 0, no underflow logged. In addition, generated solver histories on seven frontend configurations run under the real collector with Z3_solver_check / Z3_solver_check_assumptions wrapped from outside claripy: the collector must be disabled whenever one is entered and restored after every operation.",
+        "text": "The harness owns the scheduler (trace function yields before every line of _enter_z3/_exit_z3/z3_condom and the wrapped bodies) and substitutes the module's gc and lock with a model flag and a scheduler-aware lock. For every 1- and 2-thread configuration of nested call programs (incl. bodies raising Z3Exception or a foreign exception, and nested errors that leave the outer call, each followed by a further call) and both initial GC states, every scheduling choice in every reachable state is explored; 3-thread configurations up to a preemption bound plus generated schedules. After every step: flag disabled while any call is in progress, count >= 0, no deadlock; at the end flag restored, count 0, no underflow logged. In addition, generated solver histories on seven frontend configurations run under the real collector with Z3_solver_check / Z3_solver_check_assumptions wrapped from outside claripy: the collector must be disabled whenever one is entered and restored after every operation.",
         "note": "Line granularity only (no bytecode-level interleavings inside one line); the lock and GC models are the harness's; exits 2 (not a violation) if the module-level names it rebinds disappear.",
     },
 }
